@@ -298,10 +298,180 @@ pub fn f_scc(thorough: bool) -> Vec<Unit> {
     units
 }
 
+// ------------------------------------------------------------------------------------------ F-lat
+pub const LAT_TYPES: [LatTy; 8] = [LatTy::MaxU32, LatTy::DualU32, LatTy::Bool, LatTy::OptU8, LatTy::SetU8, LatTy::BSet2, LatTy::ConstProp, LatTy::TupleU8];
+
+fn succ(e: Expr) -> Expr { Expr::Succ(Box::new(e)) }
+fn lhead(rel: usize, keys: Vec<Expr>, l: HArg) -> HeadItem { let mut args: Vec<HArg> = keys.into_iter().map(HArg::E).collect(); args.push(l); HeadItem::H(Head { rel, args }) }
+fn catom(rel: usize, args: Vec<Arg>, conds: Vec<Cond>) -> BodyItem { BodyItem::Atom(Atom { rel, args, conds }) }
+
+/// lattice programs: every shipped lattice type usable as a column x the shapes of DESIGN.md C03
+pub fn f_lat(thorough: bool) -> Vec<Unit> {
+    let n = 2;
+    let mut units = vec![];
+    for ty in LAT_TYPES.iter() {
+        let tag = |s: &str| format!("lat-{}-{}", s, crate::print::lat_tag(ty));
+        // P1 non recursive: several facts per key are joined; plain relation through an upward closed test
+        {
+            let mut p = Prog { rels: vec![rel("s", 2), lat("l", 2, ty.clone()), rel("t", 1)], rules: vec![], macros: vec![], n };
+            p.rules.push(rule(vec![lhead(1, vec![ev(0)], HArg::LatMk(ev(1)))], vec![atom(0, vec![v(0), v(1)])]));
+            p.rules.push(rule(vec![head(2, vec![ev(0)])], vec![catom(1, vec![v(0), v(1)], vec![Cond::LatAbove(1, Expr::Const(1))])]));
+            units.push(Unit::simple(p, &tag("nonrec")));
+        }
+        // P2 recursive through the lattice (shortest-path shape), lattice clause first / second
+        for order in 0..2 {
+            let mut p = Prog { rels: vec![rel("s", 2), rel("g", 3), lat("l", 2, ty.clone()), rel("t", 1)], rules: vec![], macros: vec![], n };
+            p.rules.push(rule(vec![lhead(2, vec![ev(0)], HArg::LatMk(ev(1)))], vec![atom(0, vec![v(0), v(1)])]));
+            let lcl = atom(2, vec![v(0), v(1)]);
+            let gcl = atom(1, vec![v(0), v(2), v(3)]);
+            let body = if order == 0 { vec![lcl, gcl] } else { vec![gcl, lcl] };
+            p.rules.push(rule(vec![lhead(2, vec![ev(2)], HArg::LatStep(1, ev(3)))], body));
+            p.rules.push(rule(vec![head(3, vec![ev(0)])], vec![atom(2, vec![v(0), v(1)]), BodyItem::Cond(Cond::LatAbove(1, Expr::Const(1)))]));
+            units.push(Unit::simple(p, &tag(if order == 0 { "rec" } else { "rec-lat-second" })));
+        }
+        // P3 ternary lattice, key bound / free / partly bound, wildcard key column
+        {
+            let mut p = Prog { rels: vec![rel("a", 1), rel("g", 3), lat("l", 3, ty.clone()), rel("t", 1), rel("u", 1), rel("w", 2)], rules: vec![], macros: vec![], n };
+            p.rules.push(rule(vec![lhead(2, vec![ev(0), ev(1)], HArg::LatMk(ev(2)))], vec![atom(1, vec![v(0), v(1), v(2)])]));
+            p.rules.push(rule(vec![lhead(2, vec![ev(0), ev(3)], HArg::LatStep(2, ev(4)))], vec![atom(2, vec![v(0), v(1), v(2)]), atom(1, vec![v(1), v(3), v(4)])]));
+            p.rules.push(rule(vec![head(3, vec![ev(1)])], vec![atom(0, vec![v(0)]), catom(2, vec![v(0), v(1), v(2)], vec![Cond::LatAbove(2, Expr::Const(0))])]));
+            p.rules.push(rule(vec![head(4, vec![ev(0)])], vec![catom(2, vec![v(0), Arg::Wild, v(1)], vec![Cond::LatAbove(1, Expr::Const(1))])]));
+            p.rules.push(rule(vec![head(5, vec![ev(0), ev(1)])], vec![atom(0, vec![v(0)]), atom(0, vec![v(1)]), catom(2, vec![v(0), v(1), v(2)], vec![Cond::LatAbove(2, Expr::Const(1))])]));
+            units.push(Unit::simple(p, &tag("ternary")));
+        }
+        // P4 two lattices feeding each other
+        {
+            let mut p = Prog { rels: vec![rel("s", 2), rel("e", 2), lat("l", 2, ty.clone()), lat("m", 2, ty.clone()), rel("t", 1)], rules: vec![], macros: vec![], n };
+            p.rules.push(rule(vec![lhead(2, vec![ev(0)], HArg::LatMk(ev(1)))], vec![atom(0, vec![v(0), v(1)])]));
+            p.rules.push(rule(vec![lhead(3, vec![ev(0)], HArg::LatStep(1, Expr::Const(1)))], vec![atom(2, vec![v(0), v(1)])]));
+            p.rules.push(rule(vec![lhead(2, vec![ev(2)], HArg::LatVar(1))], vec![atom(3, vec![v(0), v(1)]), atom(1, vec![v(0), v(2)])]));
+            p.rules.push(rule(vec![head(4, vec![ev(0)])], vec![catom(3, vec![v(0), v(1)], vec![Cond::LatAbove(1, Expr::Const(1))])]));
+            units.push(Unit::simple(p, &tag("mutual")));
+        }
+        // P5 everything lands on one key / a key computed by an expression; lattice without key columns
+        {
+            let mut p = Prog { rels: vec![rel("s", 2), lat("l", 2, ty.clone()), lat("top", 1, ty.clone()), rel("t", 1)], rules: vec![], macros: vec![], n };
+            p.rules.push(rule(vec![lhead(1, vec![Expr::Const(0)], HArg::LatMk(ev(0)))], vec![atom(0, vec![Arg::Wild, v(0)])]));
+            p.rules.push(rule(vec![lhead(1, vec![succ(ev(0))], HArg::LatStep(1, Expr::Const(1)))], vec![atom(1, vec![v(0), v(1)])]));
+            p.rules.push(rule(vec![lhead(2, vec![], HArg::LatVar(1))], vec![atom(1, vec![Arg::Wild, v(1)])]));
+            p.rules.push(rule(vec![head(3, vec![Expr::Const(1)])], vec![catom(2, vec![v(0)], vec![Cond::LatAbove(0, Expr::Const(1))])]));
+            units.push(Unit::simple(p, &tag("one-key")));
+        }
+        // P6 two rules improve the same key in the same iteration; simple join on a lattice in both positions
+        {
+            let mut p = Prog { rels: vec![rel("s", 2), rel("r", 1), lat("l", 2, ty.clone()), lat("m", 2, ty.clone()), rel("t", 1)], rules: vec![], macros: vec![], n };
+            p.rules.push(rule(vec![lhead(2, vec![ev(0)], HArg::LatMk(ev(1)))], vec![atom(0, vec![v(0), v(1)])]));
+            p.rules.push(rule(vec![lhead(2, vec![ev(1)], HArg::LatMk(ev(0)))], vec![atom(0, vec![v(0), v(1)])]));
+            p.rules.push(rule(vec![lhead(3, vec![ev(0)], HArg::LatStep(1, Expr::Const(0)))], vec![atom(2, vec![v(0), v(1)]), atom(1, vec![v(0)])]));
+            p.rules.push(rule(vec![lhead(3, vec![ev(0)], HArg::LatStep(1, Expr::Const(1)))], vec![atom(1, vec![v(0)]), atom(2, vec![v(0), v(1)])]));
+            p.rules.push(rule(vec![lhead(2, vec![succ(ev(0))], HArg::LatVar(1))], vec![atom(3, vec![v(0), v(1)])]));
+            p.rules.push(rule(vec![head(4, vec![ev(0)])], vec![atom(3, vec![v(0), v(1)]), BodyItem::Cond(Cond::LatAbove(1, Expr::Const(0)))]));
+            units.push(Unit::simple(p, &tag("two-rules-join")));
+        }
+    }
+    let _ = thorough;
+    units
+}
+
+// ------------------------------------------------------------------------------------------ F-agg
+fn agg(res: Var, f: AggFn, bound: Option<Var>, rel: usize, args: Vec<Arg>) -> BodyItem { BodyItem::Agg { res, f, bound, rel, args } }
+
+/// stratified aggregation / negation over: an input relation, the output of a non-looping and of a
+/// looping stratum, a lattice, a relation that is itself an aggregate result, a relation that is
+/// head of two strata
+pub fn f_agg(thorough: bool) -> Vec<Unit> {
+    let n = 2;
+    let mut units = vec![];
+    // relation ids
+    const A: usize = 0; const B: usize = 1; const D: usize = 2; const R: usize = 3; const L: usize = 4; const H: usize = 5; const C: usize = 6; const C2: usize = 7; const NR: usize = 8;
+    let base = Prog { rels: vec![rel("a", 1), rel("b", 2), rel("d", 2), rel("r", 2), lat("l", 2, LatTy::MaxU32), rel("h", 2), rel("c", 2), rel("c2", 1), rel("nr", 1)], rules: vec![], macros: vec![], n };
+    let prod_d = vec![rule(vec![head(D, vec![ev(1), ev(0)])], vec![atom(B, vec![v(0), v(1)])])];
+    let prod_r = vec![rule(vec![head(R, vec![ev(0), ev(1)])], vec![atom(B, vec![v(0), v(1)])]),
+                      rule(vec![head(R, vec![ev(0), ev(2)])], vec![atom(R, vec![v(0), v(1)]), atom(B, vec![v(1), v(2)])])];
+    let prod_l = vec![rule(vec![lhead(L, vec![ev(0)], HArg::LatMk(ev(1)))], vec![atom(B, vec![v(0), v(1)])])];
+    let mut prod_h = prod_r.clone();
+    prod_h.push(rule(vec![head(H, vec![ev(0), ev(1)])], vec![atom(B, vec![v(0), v(1)])]));
+    prod_h.push(rule(vec![head(H, vec![ev(0), ev(2)])], vec![atom(H, vec![v(0), v(1)]), atom(R, vec![v(1), v(2)])]));
+    let sources: Vec<(&str, usize, Vec<Rule>)> = vec![("input", B, vec![]), ("nonlooping", D, prod_d), ("looping", R, prod_r), ("two-strata-head", H, prod_h)];
+    let aggs: Vec<(AggFn, &str)> = vec![(AggFn::Count, "count"), (AggFn::Sum, "sum"), (AggFn::Min, "min"), (AggFn::Max, "max"), (AggFn::Mean, "mean"), (AggFn::Percentile50, "percentile"), (AggFn::MinMax, "user-minmax")];
+    let mk = |rules: Vec<Rule>, inputs: Vec<usize>, tag: String, units: &mut Vec<Unit>| {
+        let mut p = base.clone();
+        p.rules = rules;
+        // drop unused relations (keeps the compiled program small); remap ids
+        let mut used = vec![false; p.rels.len()];
+        fn mark(items: &[BodyItem], used: &mut Vec<bool>) { for b in items { match b { BodyItem::Atom(a) => used[a.rel] = true, BodyItem::Agg { rel, .. } | BodyItem::Neg { rel, .. } => used[*rel] = true, BodyItem::Disj(al) => for a in al { mark(a, used) }, _ => {} } } }
+        for r in &p.rules { mark(&r.body, &mut used); for h in &r.heads { if let HeadItem::H(h) = h { used[h.rel] = true; } } }
+        let map: Vec<usize> = { let mut m = vec![usize::MAX; used.len()]; let mut k = 0; for i in 0..used.len() { if used[i] { m[i] = k; k += 1; } } m };
+        fn remap(items: &mut Vec<BodyItem>, map: &Vec<usize>) { for b in items.iter_mut() { match b { BodyItem::Atom(a) => a.rel = map[a.rel], BodyItem::Agg { rel, .. } | BodyItem::Neg { rel, .. } => *rel = map[*rel], BodyItem::Disj(al) => for a in al.iter_mut() { remap(a, map) }, _ => {} } } }
+        for r in p.rules.iter_mut() { remap(&mut r.body, &map); for h in r.heads.iter_mut() { if let HeadItem::H(h) = h { h.rel = map[h.rel]; } } }
+        p.rels = p.rels.iter().enumerate().filter(|(i, _)| used[*i]).map(|(_, r)| r.clone()).collect();
+        let mut u = Unit::simple(p, &tag);
+        u.input_rels = inputs.iter().filter(|i| used[**i]).map(|i| map[*i]).collect();
+        u.input_rels.sort();
+        u.input_rels.dedup();
+        // the consumer must wait for its producers whatever the textual order of the rules
+        let mut rev = u.variants[0].clone();
+        rev.prog.rules.reverse();
+        rev.label = "ascent-rules-reversed".into();
+        u.variants.push(rev);
+        units.push(u);
+    };
+    for (sname, src, prod) in &sources {
+        for (f, fname) in &aggs {
+            let is_count = *f == AggFn::Count;
+            // keyed: c(x, n) <-- a(x), agg n = F(y) in SRC(x, y)
+            let mut rules = prod.clone();
+            rules.push(rule(vec![head(C, vec![ev(0), ev(2)])], vec![atom(A, vec![v(0)]),
+                agg(2, f.clone(), if is_count { None } else { Some(1) }, *src, vec![v(0), if is_count { Arg::Wild } else { v(1) }])]));
+            mk(rules, vec![A, B, *src], format!("agg-{}-{}-keyed", fname, sname), &mut units);
+            // unkeyed, aggregate is the first body item: c(0, n) <-- agg n = F(y) in SRC(_, y)
+            let mut rules = prod.clone();
+            rules.push(rule(vec![head(C, vec![Expr::Const(0), ev(2)])], vec![agg(2, f.clone(), if is_count { None } else { Some(1) }, *src, vec![Arg::Wild, if is_count { Arg::Wild } else { v(1) }])]));
+            mk(rules, vec![A, B, *src], format!("agg-{}-{}-unkeyed", fname, sname), &mut units);
+            if thorough || matches!(f, AggFn::Count | AggFn::Sum) {
+                // aggregated column first, bound column second; constant column
+                let mut rules = prod.clone();
+                rules.push(rule(vec![head(C, vec![ev(0), ev(2)])], vec![atom(A, vec![v(0)]),
+                    agg(2, f.clone(), if is_count { None } else { Some(1) }, *src, vec![if is_count { Arg::Wild } else { v(1) }, v(0)])]));
+                mk(rules, vec![A, B, *src], format!("agg-{}-{}-second-column-bound", fname, sname), &mut units);
+                let mut rules = prod.clone();
+                rules.push(rule(vec![head(C, vec![ev(0), ev(2)])], vec![atom(A, vec![v(0)]),
+                    agg(2, f.clone(), if is_count { None } else { Some(1) }, *src, vec![c(1), if is_count { Arg::Wild } else { v(1) }])]));
+                mk(rules, vec![A, B, *src], format!("agg-{}-{}-constant-key", fname, sname), &mut units);
+            }
+        }
+        // negation: bound key, both columns bound, constant, wildcard only
+        for (k, args) in [vec![v(0), Arg::Wild], vec![v(0), v(0)], vec![v(0), c(0)], vec![Arg::Wild, v(0)]].into_iter().enumerate() {
+            let mut rules = prod.clone();
+            rules.push(rule(vec![head(NR, vec![ev(0)])], vec![atom(A, vec![v(0)]), BodyItem::Neg { rel: *src, args }]));
+            mk(rules, vec![A, B, *src], format!("neg-{}-{}", sname, k), &mut units);
+        }
+        // aggregate of an aggregate (depth 2 of the stratum order), and a negation on top of an aggregate
+        let mut rules = prod.clone();
+        rules.push(rule(vec![head(C, vec![ev(0), ev(2)])], vec![atom(A, vec![v(0)]), agg(2, AggFn::Count, None, *src, vec![v(0), Arg::Wild])]));
+        rules.push(rule(vec![head(C2, vec![ev(1)])], vec![agg(1, AggFn::Max, Some(0), C, vec![Arg::Wild, v(0)])]));
+        rules.push(rule(vec![head(NR, vec![ev(0)])], vec![atom(A, vec![v(0)]), BodyItem::Neg { rel: C, args: vec![v(0), c(0)] }]));
+        mk(rules, vec![A, B, *src], format!("agg-depth2-{}", sname), &mut units);
+    }
+    // aggregation over a lattice: one row per key
+    for (f, fname, bound_key) in [(AggFn::Count, "count", false), (AggFn::Sum, "sum", true), (AggFn::Max, "max", true), (AggFn::MinMax, "user-minmax", true)] {
+        let mut rules = prod_l.clone();
+        rules.push(rule(vec![head(C, vec![Expr::Const(0), ev(2)])], vec![agg(2, f.clone(), if bound_key { Some(1) } else { None }, L, vec![if bound_key { v(1) } else { Arg::Wild }, Arg::Wild])]));
+        mk(rules, vec![A, B, L], format!("agg-{}-lattice-unkeyed", fname), &mut units);
+    }
+    let mut rules = prod_l.clone();
+    rules.push(rule(vec![head(C, vec![ev(0), ev(2)])], vec![atom(A, vec![v(0)]), agg(2, AggFn::Count, None, L, vec![v(0), Arg::Wild])]));
+    rules.push(rule(vec![head(NR, vec![ev(0)])], vec![atom(A, vec![v(0)]), BodyItem::Neg { rel: L, args: vec![v(0), Arg::Wild] }]));
+    mk(rules, vec![A, B, L], "agg-count-lattice-keyed".into(), &mut units);
+    units
+}
+
 pub fn units(family: &str, thorough: bool) -> Vec<Unit> {
     match family {
         "shape" => f_shape(thorough),
         "scc" => f_scc(thorough),
+        "lat" => f_lat(thorough),
+        "agg" => f_agg(thorough),
         _ => panic!("unknown family {}", family),
     }
 }
